@@ -1461,7 +1461,7 @@ pub fn gen_quit(rng: &mut Rng) -> E2Scn {
         _ => 3,
     };
     let quit_batch = rng.range(0, 2) as u32;
-    let graceful = if rng.chance(1, 2) { None } else { Some((*rng.pick(&[15i32, 2, 1, 10]), *rng.pick(&[0u64, 1, 10, 100, 1000, 10_000]))) };
+    let graceful = if rng.chance(1, 2) { None } else { Some((*rng.pick(&[15i32, 2, 1, 10, 9, 9]), *rng.pick(&[0u64, 0, 1, 10, 100, 1000, 10_000]))) };
     for _ in 0..n_jobs {
         let at_batch = rng.range(0, quit_batch as u64) as u32;
         let react = match rng.below(4) {
